@@ -54,7 +54,7 @@ func (prop) Run(t *testing.T, s *sim.Sim, res *runner.Result) {
 	st := &state{cmTask: map[int]types.NamespacedName{}}
 	xrworld.Run(s, res, xrworld.Hooks{
 		Opts: func(tp *sim.Tape) xrworld.Opts {
-			return xrworld.Opts{Claims: true, SSAClaims: tp.Next(2) == 1}
+			return xrworld.Opts{Claims: true, SSAClaims: tp.Next(2) == 1, LagXRs: tp.Next(4) == 0}
 		},
 		NoXRs:      true,
 		Params:     xrworld.DrawParams{Readiness: true, Conditions: true, Strict: true, Fatal: true, Anonymous: true},
@@ -84,9 +84,29 @@ func (prop) Run(t *testing.T, s *sim.Sim, res *runner.Result) {
 				}
 			}
 			w.Store.OnLog = append(w.Store.OnLog, st.onLog)
+			w.OnClaimDone = func(key types.NamespacedName, tk *sim.Task, startSeq int, _ reconcile.Result, err error) {
+				if err == nil && tk.Normal && len(tk.FaultSteps) == 0 {
+					st.judgeClaimStillReady(key, tk, startSeq)
+				}
+			}
 		},
 		Env: func(w *xrworld.W, wl *xrworld.Workload) []sim.Action {
 			var acts []sim.Action
+			// an XR is deleted out of band (its claim creates it again under its name)
+			for _, xr := range w.XRObjects() {
+				xr := xr
+				acts = append(acts, sim.Action{Key: "XR " + xr.GetName() + " is force-deleted", Weight: 1, Run: func() {
+					ctx := context.Background()
+					x := xr.DeepCopy()
+					if w.Direct.Get(ctx, types.NamespacedName{Name: x.GetName()}, x) != nil {
+						return
+					}
+					x.SetFinalizers(nil)
+					if w.Direct.Update(ctx, x) == nil && w.Direct.Delete(ctx, x) == nil {
+						w.S.Probe("xr-force-deleted")
+					}
+				}})
+			}
 			for _, c := range st.claims {
 				c := c
 				acts = append(acts, sim.Action{Key: "edit claim " + c.Name, Weight: 5, Run: func() { st.editClaim(c, s.Tape) }})
@@ -105,6 +125,41 @@ func (prop) Run(t *testing.T, s *sim.Sim, res *runner.Result) {
 			}
 		},
 	})
+}
+
+// judgeClaimStillReady: a claim reconcile that ran to the end without a fault
+// and left the claim Ready=True (also when it already was) observed the XR
+// Ready=True - the XR as this reconcile last saw it: its last read, or the
+// answer to its own last write.
+func (st *state) judgeClaimStillReady(key types.NamespacedName, tk *sim.Task, startSeq int) {
+	w := st.w
+	var cm, xr map[string]any
+	for _, l := range w.Store.Log[startSeq:] {
+		if l.TaskID != tk.ID || l.Injected != "" || l.Err != nil || l.DryRun || l.After == nil {
+			continue
+		}
+		if l.Key.Kind == xrworld.ClaimGVK.Kind && l.Key.Group == xrworld.ClaimGVK.Group && !l.Read && (l.Verb == "update-status" || l.Verb == "patch-status" || l.Verb == "apply-status") {
+			cm = l.After
+		}
+		if l.Key.Kind == xrworld.XRGVK.Kind && l.Key.Group == xrworld.XRGVK.Group {
+			xr = l.After
+		}
+	}
+	if cm == nil || !condTrue(cm, "Ready") || (&unstructured.Unstructured{Object: cm}).GetDeletionTimestamp() != nil {
+		return
+	}
+	if c := cond(cm, "Ready"); c == nil || c["reason"] != "Available" {
+		return
+	}
+	// (the claim reconciler reports its errors in the Synced condition and returns
+	// none: only a reconcile that left Synced=True got as far as judging readiness)
+	if !condTrue(cm, "Synced") {
+		return
+	}
+	w.S.Probe("claim-left-ready-judged")
+	if xr == nil || !condTrue(xr, "Ready") {
+		w.S.Violate("C05/claim-ready-without-ready-xr", fmt.Sprintf("claim %s was left Ready=True by a reconcile that ran to the end and did not observe its XR Ready=True", key))
+	}
 }
 
 // templateID: a template's name, or for an anonymous template its content (the
